@@ -507,3 +507,33 @@ def c08i(ctx):
     im = ctx.fn('mapproxy/cache/tile.py:TileManager._is_tile_missing')
     ok = any(is_call(x, 'self.is_cached') for x in im.walk())
     ctx.check(ok, 'TileManager._is_tile_missing:asks-the-cache', 'the existence check asks the cache again (it can see tiles stored after the batch load)', im)
+
+
+@rule('C08.j', floor=2)
+def c08j(ctx):
+    """the front end of a renderd set-up and renderd itself do not wait for each other: the front end holds its tile lock while it
+    waits for renderd, and renderd -- the same configuration loaded with renderd=True -- creates the tile under the regular tile lock
+    of the cache.  The two lockers are built with different identifiers (the renderd one is not `cache.lock_cache_id`), or the back end
+    waits for the lock the front end holds until the request times out"""
+    fn = ctx.fn('mapproxy/config/loader.py:CacheConfiguration.caches')
+    ctors = [x for x in fn.walk() if is_call(x, 'TileLocker')]
+    if len(ctors) < 2:
+        raise Undecided('CacheConfiguration.caches: %d TileLocker constructions found' % len(ctors))
+    ids = []
+    for x in ctors:
+        a = keyword(x, 'lock_cache_id', 2)
+        ids.append(fn.ctext(a, at=fn.cfg.node_for(x)) if a is not None else None)
+    ok = all(i is not None for i in ids) and len(set(ids)) == len(ids)
+    ctx.check(ok, 'CacheConfiguration.caches:renderd-lock-differs', 'the tile lockers of the renderd front end and of the regular creator have different identifiers', fn,
+              fail='the tile locker handed to the renderd front end has the identifier of the regular tile lock (%s): front end and renderd '
+                   'wait for each other' % ids)
+    regular = [i for i in ids if i is not None and i.endswith('.lock_cache_id')]
+    ctx.check(len(regular) == 1, 'CacheConfiguration.caches:regular-lock-id', 'exactly one locker -- the regular one -- is named by cache.lock_cache_id', fn)
+
+
+@rule('C08.k', floor=2)
+def c08k(ctx):
+    """shared rule C06.c, re-evaluated for this property: a reader that runs next to the one writer of a bundle (readers take no lock)
+    finds behind every index entry a complete record -- the record is appended before the index entry is set"""
+    from ..engine import share
+    share(ctx, 'C06', {'C06.c'}, keep=lambda o: 'Bundle' in o.construct)
